@@ -282,12 +282,17 @@ func (h *hist) send(toContract bool) {
 	h.apply(b, kp, true, what)
 }
 
-func (h *hist) receive() {
+func (h *hist) receive() { h.receiveMode(-1) }
+
+// receiveMode: one receive attempt; mode < 0 draws the kind of attempt
+func (h *hist) receiveMode(mode int) {
 	rng := h.rng
 	pl := h.sc.Scan(true)
-	mode := rng.Intn(10)
-	if !h.nd.EnforcedNow() && rng.Intn(3) == 0 {
-		mode = 5 + rng.Intn(5) // below the enforcement height: more repeated and foreign attempts
+	if mode < 0 {
+		mode = rng.Intn(10)
+		if !h.nd.EnforcedNow() && rng.Intn(3) == 0 {
+			mode = 5 + rng.Intn(5) // below the enforcement height: more repeated and foreign attempts
+		}
 	}
 	var cands []*nom.AccountBlock
 	for _, s := range pl.Sends {
@@ -552,6 +557,14 @@ func (h *hist) momentum() {
 		h.event(b, true, 0, what)
 	}
 	h.oracle("after-momentum")
+	// at the edge of the switch-over (the last momentum below the enforcement height, the first one at it): a burst of
+	// attempts by other accounts and of repeated attempts
+	if after+1 == h.enf || after == h.enf {
+		h.out.Count("c04:switch-over-edge-burst")
+		for k := 0; k < 4; k++ {
+			h.receiveMode([]int{8, 9, 5, 8}[k])
+		}
+	}
 }
 
 // the facts for a block that is already in the pool: evaluate them at its own position
